@@ -112,7 +112,9 @@ class AstNode(object):
         * namespace member
         * enumerator
         """
-        raise NotImplemented  # virtual function
+        # Nodes which are not scopes (typedef, enum, function, variable)
+        # have no members.
+        return None
 
     def unqualified_lookup(self, name):
         """Look for symbols within a scope.
